@@ -250,6 +250,9 @@ end Machine2
 
 /-! ### The callback tree -/
 
+@[simp] theorem ext_restore (x : Ext) (b : Option (Option Rat)) : (x.setP b).setP x.pbest = x := by
+  cases x; rfl
+
 mutual
 theorem call_ids (dones : Dones) (c : Call) : ∀ (t : Cb) (x : Ext),
     (∀ e ∈ (t.call dones c x).evs, e.id ∈ t.ids) ∧ (t.call dones c x).cb.ids = t.ids
@@ -259,8 +262,10 @@ theorem call_ids (dones : Dones) (c : Call) : ∀ (t : Cb) (x : Ext),
     obtain ⟨h1, h2⟩ := callL_ids dones c cs x
     cases c <;> simp [Cb.call, Cb.ids, h2] <;> exact fun e he => Or.inr (h1 e he)
   | .everyN id n last nc nt ch, x => by
-    obtain ⟨h1, h2⟩ := call_ids dones c ch x
-    cases c <;> simp only [Cb.call, Cb.ids] <;> (try split) <;> simp_all [Cb.ids]
+    have ih1 := fun y => (call_ids dones c ch y).1
+    have ih2 := fun y => (call_ids dones c ch y).2
+    cases c <;> simp only [Cb.call, Cb.ids] <;> (try split) <;> simp [Cb.ids, ih2] <;>
+      exact fun e he => Or.inr (ih1 _ e he)
   | .eval id freq nc nt best a b, x => by
     cases c with
     | trainingStart num =>
@@ -282,29 +287,34 @@ theorem call_ids (dones : Dones) (c : Call) : ∀ (t : Cb) (x : Ext),
       · exact Or.inr (Or.inr (h1 e he))
       · exact Or.inr (Or.inl (k1 e he))
     | step num =>
-      obtain ⟨a1, a2⟩ := call_ids dones (.step num) a x.pop.2
-      obtain ⟨b1, b2⟩ := call_ids dones (.step num) b (a.call dones (.step num) x.pop.2).ext
-      obtain ⟨c1, c2⟩ := call_ids dones (.step num) b x.pop.2
+      have iha := fun y => call_ids dones (.step num) a y
+      have ihb := fun y => call_ids dones (.step num) b y
       simp only [Cb.call]
       split
       · split
         · split
-          · simp [Cb.ids, a2, b2]
+          · simp [Cb.ids, (iha _).2, (ihb _).2]
             intro e he
             rcases he with he | he
-            · exact Or.inr (Or.inl (a1 e he))
-            · exact Or.inr (Or.inr (b1 e he))
-          · simp [Cb.ids, a2]
-            intro e he; exact Or.inr (Or.inl (a1 e he))
-        · simp [Cb.ids, c2]
-          intro e he; exact Or.inr (Or.inr (c1 e he))
+            · exact Or.inr (Or.inl ((iha _).1 e he))
+            · exact Or.inr (Or.inr ((ihb _).1 e he))
+          · simp [Cb.ids, (iha _).2]
+            intro e he; exact Or.inr (Or.inl ((iha _).1 e he))
+        · simp [Cb.ids, (ihb _).2]
+          intro e he; exact Or.inr (Or.inr ((ihb _).1 e he))
       · simp [Cb.ids]
     | rolloutStart => simp [Cb.call, Cb.ids]
     | rolloutEnd => simp [Cb.call, Cb.ids]
     | trainingEnd => simp [Cb.call, Cb.ids]
   | .checkpoint id freq nc nt, x => by
     cases c <;> simp [Cb.call, Cb.ids]
-  | .maxEp id m ne nc nt loc, x => by
+  | .maxEp id m nenv ne nc nt loc, x => by
+    cases c <;> simp [Cb.call, Cb.ids]
+  | .fn id st fc nc nt loc, x => by
+    cases c <;> simp [Cb.call, Cb.ids]
+  | .rewardThr id thr nc nt, x => by
+    cases c <;> simp [Cb.call, Cb.ids]
+  | .noImprove id mx mn lb ni nc nt, x => by
     cases c <;> simp [Cb.call, Cb.ids]
 theorem callL_ids (dones : Dones) (c : Call) : ∀ (ts : List Cb) (x : Ext),
     (∀ e ∈ (Cb.callL dones c ts x).evs, e.id ∈ Cb.idsL ts) ∧ Cb.idsL (Cb.callL dones c ts x).cbs = Cb.idsL ts
@@ -330,12 +340,11 @@ theorem step_ok (dones : Dones) (num : Nat) : ∀ (t : Cb) (x : Ext),
     have h := stepL_ok dones num cs x
     simp [Cb.call, h]
   | .everyN id n last nc nt ch, x => by
-    have h := step_ok dones num ch x
+    have h := fun y => step_ok dones num ch y
     simp only [Cb.call]; split <;> simp_all
   | .eval id freq nc nt best a b, x => by
-    have ha := step_ok dones num a x.pop.2
-    have hb := step_ok dones num b (a.call dones (.step num) x.pop.2).ext
-    have hc := step_ok dones num b x.pop.2
+    have ha := fun y => step_ok dones num a y
+    have hb := fun y => step_ok dones num b y
     simp only [Cb.call]
     split
     · split
@@ -346,7 +355,10 @@ theorem step_ok (dones : Dones) (num : Nat) : ∀ (t : Cb) (x : Ext),
     · simp
   | .checkpoint id freq nc nt, x => by
     simp only [Cb.call]; split <;> simp
-  | .maxEp id m ne nc nt loc, x => by simp [Cb.call]
+  | .maxEp id m nenv ne nc nt loc, x => by simp [Cb.call]
+  | .fn id st fc nc nt loc, x => by simp [Cb.call]
+  | .rewardThr id thr nc nt, x => by simp [Cb.call]
+  | .noImprove id mx mn lb ni nc nt, x => by simp [Cb.call]
 theorem stepL_ok (dones : Dones) (num : Nat) : ∀ (ts : List Cb) (x : Ext),
     (Cb.callL dones (.step num) ts x).ok = (Cb.callL dones (.step num) ts x).evs.all (·.ret)
   | [], x => by simp [Cb.callL]
@@ -577,12 +589,12 @@ theorem everyN_segment (dones : Dones) (id n d cid : Nat) (st : List Nat) (hn : 
     omega
   | succ k ih =>
     intro a num g0 nc nt lnc lnt lloc x h1 h2
-    simp only [segmentCalls, Cb.evsOf, Cb.after, Cb.call, List.nil_append]
+    simp only [segmentCalls, Cb.evsOf, Cb.after, Cb.call, List.nil_append, ext_restore]
     by_cases hdue : a + n ≤ num + d
     · have hd : everyNDue n a (num + d) = true := by simp [everyNDue, hdue]
       simp only [hd, if_true]
-      obtain ⟨g1, g2, g3, g4⟩ := ih (num + d) (num + d) (g0 + 1) (nc + 1) (num + d) (lnc + 1) (num + d) (g0 + 1) x
-        (Nat.le_refl _) (by omega)
+      obtain ⟨g1, g2, g3, g4⟩ := ih (num + d) (num + d) (g0 + 1) (nc + 1) (num + d) (lnc + 1) (num + d) (g0 + 1)
+        x (Nat.le_refl _) (by omega)
       simp only [stepTimes_append]
       have e : stepTimes cid [⟨cid, Kind.step, lnc + 1, num + d, g0 + 1, !st.contains (lnc + 1)⟩] = [num + d] := by
         simp [stepTimes, proj]
@@ -785,5 +797,68 @@ theorem runN_terminates (cfg : Cfg) (h : σ → Call → σ × Bool) (k : Nat) (
       exact ih _ (by omega)
 
 end Term
+
+/-! ### function callbacks, reward threshold, no-improvement, max-episodes -/
+
+theorem fn_is_leaf (dones : Dones) (id : Nat) (st : List Nat) : ∀ (cs : List Call) (n nt loc : Nat) (x : Ext),
+    Cb.evsOf dones (.fn id st n n nt loc) x cs =
+      (Cb.evsOf dones (.leaf id st n nt loc) x cs).filter (fun e => e.kind == .step) := by
+  intro cs
+  induction cs with
+  | nil => intros; simp [Cb.evsOf]
+  | cons c cs ih =>
+    intro n nt loc x
+    cases c <;> simp [Cb.evsOf, Cb.call, ih]
+
+theorem noImp_feed (dones : Dones) (id maxNo minEvals : Nat) :
+    ∀ (bs : List (Option Rat)) (h : List Bool) (last : Option Rat) (noImp nc nt : Nat) (x : Ext),
+      noImp = streak h → (nc < minEvals → noImp = 0) →
+      feedBests dones (.noImprove id maxNo minEvals last noImp nc nt) x bs = noImpSpec maxNo minEvals h nc last bs := by
+  intro bs
+  induction bs with
+  | nil => intros; simp [feedBests, noImpSpec]
+  | cons b bs ih =>
+    intro h last noImp nc nt x h1 h2
+    simp only [feedBests, noImpSpec]
+    by_cases hc : minEvals < nc + 1
+    · by_cases hi : gtBest b last = true
+      · congr 1
+        · simp [Cb.call, Ext.setP, hc, hi, streak]
+        · simp only [Cb.call, Ext.setP, Option.getD_some, hc, hi, decide_true, if_true]
+          exact ih _ b 0 (nc + 1) 0 _ (by simp [streak]) (by omega)
+      · have hi' : gtBest b last = false := by simpa using hi
+        congr 1
+        · simp [Cb.call, Ext.setP, hc, hi', streak, h1]
+        · simp only [Cb.call, Ext.setP, Option.getD_some, hc, hi', decide_true, if_true, Bool.false_eq_true, if_false]
+          exact ih _ b (noImp + 1) (nc + 1) 0 _ (by simp [streak, h1]) (by omega)
+    · have hz : noImp = 0 := h2 (by omega)
+      congr 1
+      · simp [Cb.call, Ext.setP, hc, streak]
+      · simp only [Cb.call, Ext.setP, Option.getD_some, hc, decide_false, Bool.false_eq_true, if_false]
+        exact ih _ b noImp (nc + 1) 0 _ (by simp [streak, hz]) (fun _ => hz)
+
+theorem maxEp_segment (dones : Dones) (id M n d : Nat) : ∀ (k num g0 nEp nc nt loc : Nat) (x : Ext),
+    Cb.evsOf dones (.maxEp id M n nEp nc nt loc) x (segmentCalls num d g0 k) =
+      (List.range k).map (fun i => (⟨id, .step, nc + i + 1, num + (i + 1) * d, g0 + i + 1,
+        decide (nEp + cumDones dones g0 (i + 1) < M * n)⟩ : Event)) := by
+  intro k
+  induction k with
+  | zero => intros; simp [segmentCalls, Cb.evsOf]
+  | succ k ih =>
+    intro num g0 nEp nc nt loc x
+    simp only [segmentCalls, Cb.evsOf, Cb.call, List.nil_append, ih, List.range_succ_eq_map, List.map_cons,
+      List.map_map, List.singleton_append]
+    congr 1
+    · simp only [cumDones, Nat.add_zero, Nat.zero_add, Nat.one_mul, Event.mk.injEq, true_and]
+      exact decide_eq_decide.mpr Iff.rfl
+    · apply List.map_congr_left
+      intro i _
+      simp only [Function.comp, Event.mk.injEq, true_and]
+      refine ⟨by omega, ?_, by omega, ?_⟩
+      · rw [Nat.succ_mul (i + 1)]; omega
+      · apply decide_eq_decide.mpr
+        rw [show cumDones dones g0 (i.succ + 1) = dones (g0 + 1) + cumDones dones (g0 + 1) (i + 1) from rfl]
+        omega
+
 
 end SB3Verif.Callback.Lemmas
